@@ -22,9 +22,9 @@
 //! 2. Non-default type parameters (RGB standard, luma standard, white point, LMS matrix) through the unchanged `run_blend` /
 //!    `run_compose` of `c08.rs` on a small sample: the impls are generic in these parameters (no code of their own), so this is
 //!    a guard against a parameter-dependent bound or body appearing, not new arithmetic.
-use crate::c08::{gen_cases, run_blend, run_compose, Fx};
+use crate::c08::{gen_cases, pack, run_blend, run_compose, w3c_b, w3c_blend_pre, w3c_over_alpha, Case, Fx, MODES};
 use crate::common::*;
-use palette::blend::{Compose, PreAlpha, Premultiply};
+use palette::blend::{Blend, Compose, PreAlpha, Premultiply};
 use palette::cast;
 use palette::Alpha;
 
@@ -171,7 +171,112 @@ macro_rules! more_floats { ($out:expr, $rng:expr, $t:ty, $thorough:expr) => {{
       run_compose::<palette::Yxy<E, $t>, $t, 3, 4>(out, "YxyE", &cases, rng); }
 }} }
 
+// ------------------------------------------------------------------------------------------------
+// 3. "corner components x arbitrary alphas".  The grid of `c08.rs` pairs the corner components {0, 1/4, 1/2, 1} only with the alphas
+//    {0, tiny, 1/4 -+ ulp, 1/2 -+ ulp, 1}, and its random stream does not put exact 0/1 components together with arbitrary alphas.
+//    The guarded end points of the per-mode functions (burn: cb = 1 / cs = 0, dodge: cb = 0 / cs = 1; thresholds 1/4, 1/2 of
+//    hard-light, soft-light, overlay) are reached from a premultiplied input only through the recovered straight colour
+//    `c_pre / alpha`, which for these components is EXACT in IEEE arithmetic for every normal alpha (c*a is exact: c is 0 or a power
+//    of two; (c*a)/a is the correctly rounded value of the real number c, i.e. c).  So the premultiplied input (c*a, a) denotes the
+//    straight colour c exactly, and the W3C value at that point is the property's expected value without any allowance for a
+//    rounded argument.
+//    * `corner_cases`: all 16 (cs, cb) pairs from {0, 1, 1/4, 1/2} packed into the N components (every pair in every alpha pair),
+//      alpha pairs (a,1), (1,a), (a,a), (a,b), (b,a) for ~64 alphas a (decimal ones whose reciprocal is inexact, k/100, random).
+//    * the unchanged `run_blend` of `c08.rs` on them: opaque / Alpha / PreAlpha::new forms, W3C clauses, ranges, protocol lines.
+//    * `corner_forms!` (per concrete type): the PreAlpha form premultiplied by hand (`PreAlpha { color: c*a, alpha: a }`) and by
+//      `PreAlpha::new`, judged by the W3C formula with the sibling tolerance `16 eps * alpha_o` (clause `formula-corner`), and the
+//      property's "the input forms agree": PreAlpha result = Alpha result re-premultiplied (clause `forms-agree`).
+fn corner_alphas<T: Fx>(rng: &mut Rng) -> Vec<T> {
+    let mut v: Vec<T> = vec![];
+    for a in [0.21, 0.42, 0.77, 0.85, 0.91, 0.09, 0.41, 0.73, 0.1, 0.2, 0.3, 0.6, 0.7, 0.9, 0.99, 0.01, 1.0 / 3.0, 2.0 / 3.0, 0.75, 0.5, 0.25, 1.0] { v.push(T::of(a)); }
+    for k in [3, 7, 11, 13, 17, 19, 23, 29, 31, 37, 43, 47, 53, 59, 61, 67, 71, 79, 83, 89, 93, 97] { v.push(T::of(k as f64 / 100.0)); }
+    for _ in 0..20 { v.push(T::of(0.01 + 0.99 * rng.unit())); }
+    v
+}
+fn corner_cases<T: Fx, const N: usize>(rng: &mut Rng) -> Vec<Case<T, N>> {
+    let cg = [T::zero(), T::one(), T::of(0.25), T::of(0.5)];
+    let mut pairs = vec![]; for &a in &cg { for &b in &cg { pairs.push((a, b)); } }
+    let al = corner_alphas::<T>(rng);
+    let mut ap = vec![];
+    for &a in &al {
+        let b = *rng.pick(&al);
+        ap.push((a, T::one())); ap.push((T::one(), a)); ap.push((a, a)); ap.push((a, b)); ap.push((b, a));
+    }
+    let mut out = vec![];
+    pack::<T, N>(&pairs, &ap, &mut out);
+    out
+}
+
+macro_rules! corner_forms { ($out:expr, $t:ty, $c:ty, $n:literal, $name:expr, $cases:expr) => {{
+    type T = $t; type C = $c; const N: usize = $n;
+    let out: &mut Out = $out; let ty: &str = $name; let cases: &[Case<T, N>] = $cases;
+    let t = 16.0 * <T as Fl>::eps(); // `tol` of c08.rs
+    let fa: [fn(Alpha<C, T>, Alpha<C, T>) -> Alpha<C, T>; 11] = [Blend::multiply, Blend::screen, Blend::overlay, Blend::darken, Blend::lighten, Blend::dodge, Blend::burn, Blend::hard_light, Blend::soft_light, Blend::difference, Blend::exclusion];
+    let fp: [fn(PreAlpha<C>, PreAlpha<C>) -> PreAlpha<C>; 11] = [Blend::multiply, Blend::screen, Blend::overlay, Blend::darken, Blend::lighten, Blend::dodge, Blend::burn, Blend::hard_light, Blend::soft_light, Blend::difference, Blend::exclusion];
+    for c in cases {
+        let (sa64, da64) = (c.sa.to64(), c.da.to64());
+        let ao = w3c_over_alpha(sa64, da64);
+        // premultiplied by hand (exact products: components are 0 or powers of two, alphas >= 0.01)
+        let mut hs = c.s; let mut hd = c.d;
+        for k in 0..N { hs[k] = c.s[k] * c.sa; hd[k] = c.d[k] * c.da; }
+        let exact = (0..N).all(|k| hs[k].to64() == c.s[k].to64() * sa64 && hd[k].to64() == c.d[k].to64() * da64);
+        if !exact { out.count("cls:corner:inexact-product-skipped"); continue; }
+        out.count("cls:corner:cases");
+        for (mi, mode) in MODES.iter().enumerate() {
+            let ra = fa[mi](Alpha { color: cast::from_array(c.s), alpha: c.sa }, Alpha { color: cast::from_array(c.d), alpha: c.da });
+            let (rc, ral): ([T; N], T) = (cast::into_array(ra.color), ra.alpha);
+            for form in ["by-hand", "new"] {
+                let (ps, pd): (PreAlpha<C>, PreAlpha<C>) = if form == "by-hand" {
+                    (PreAlpha { color: cast::from_array(hs), alpha: c.sa }, PreAlpha { color: cast::from_array(hd), alpha: c.da })
+                } else {
+                    (PreAlpha::new(cast::from_array(c.s), c.sa), PreAlpha::new(cast::from_array(c.d), c.da))
+                };
+                let rp = fp[mi](ps, pd);
+                let (rpc, rpa): ([T; N], T) = (cast::into_array(rp.color), rp.alpha);
+                if form == "by-hand" {
+                    out.case(&format!("blend {} {} pre | {} {} {} {} {} | {} {}", ty, mode, N, hx_list(&hs), c.sa.hx(), hx_list(&hd), c.da.hx(), hx_list(&rpc), rpa.hx()));
+                }
+                out.check((rpa.to64() - ao).abs() <= t, &format!("formula-alpha-corner:{}:pre-{}:{}:{}", mode, form, ty, <T as Fl>::TAG),
+                    || format!("as={:e} ab={:e}: impl {:e}, W3C {:e}", sa64, da64, rpa.to64(), ao));
+                for k in 0..N {
+                    let (cs, cb) = (c.s[k].to64(), c.d[k].to64());
+                    // W3C co at the straight colours the premultiplied inputs denote exactly; tolerance of `formula:*:pre` without the
+                    // argument-rounding allowance (there is no rounded argument here, see the header of this section)
+                    let want = w3c_blend_pre(w3c_b(mode, cb, cs), cs, sa64, cb, da64);
+                    let dev = (rpc[k].to64() - want).abs();
+                    out.maxi(&format!("dev/eps/ao:corner-pre:{}", <T as Fl>::TAG), dev / <T as Fl>::eps() / ao);
+                    out.check(dev <= t * ao, &format!("formula-corner:{}:pre-{}:{}:{}", mode, form, ty, <T as Fl>::TAG),
+                        || format!("PreAlpha {{ color: cs*as = {:e}, alpha: as = {:e} }}.{}(PreAlpha {{ color: cb*ab = {:e}, alpha: ab = {:e} }}) [cs={:e} cb={:e}]: impl co {:e}, W3C co {:e}", hs[k].to64(), sa64, mode, hd[k].to64(), da64, cs, cb, rpc[k].to64(), want));
+                    // the input forms agree: premultiplied result = straight result of the Alpha form times its alpha.  Both are within
+                    // the sibling tolerances of the same W3C value (pre: t*ao; alpha form: t on the straight colour, t on the alpha,
+                    // colour <= 1 + t), so their difference is within t*ao + t*ral + t*(1+t) <= t*(2*ao + 1) + t*t.
+                    let dev2 = (rpc[k].to64() - rc[k].to64() * ral.to64()).abs();
+                    out.check(dev2 <= t * (2.0 * ao + 1.0) + t * t && (rpa.to64() - ral.to64()).abs() <= 2.0 * t, &format!("forms-agree:{}:pre-{}-vs-alpha:{}:{}", mode, form, ty, <T as Fl>::TAG),
+                        || format!("cs={:e} as={:e} cb={:e} ab={:e}: PreAlpha form {:e}/{:e}, Alpha form {:e}/{:e}", cs, sa64, cb, da64, rpc[k].to64(), rpa.to64(), rc[k].to64(), ral.to64()));
+                }
+            }
+        }
+    }
+}} }
+
+macro_rules! corner_floats { ($out:expr, $rng:expr, $t:ty) => {{
+    use palette::white_point::D65;
+    let (out, rng): (&mut Out, &mut Rng) = ($out, $rng);
+    { let cases = corner_cases::<$t, 3>(rng);
+      run_blend::<palette::LinSrgb<$t>, $t, 3>(out, "LinSrgb", &cases);
+      corner_forms!(out, $t, palette::LinSrgb<$t>, 3, "LinSrgb", &cases);
+      let sub: Vec<Case<$t, 3>> = cases.iter().step_by(7).cloned().collect();
+      corner_forms!(out, $t, palette::Srgb<$t>, 3, "Srgb", &sub);
+      corner_forms!(out, $t, palette::Xyz<D65, $t>, 3, "Xyz", &sub);
+      corner_forms!(out, $t, palette::lms::Lms<palette::lms::matrix::Bradford, $t>, 3, "Lms", &sub); }
+    { let cases = corner_cases::<$t, 1>(rng);
+      let sub: Vec<Case<$t, 1>> = cases.iter().step_by(5).cloned().collect();
+      corner_forms!(out, $t, palette::LinLuma<D65, $t>, 1, "LinLuma", &sub); }
+}} }
+
 pub fn run_more(out: &mut Out, rng: &mut Rng, thorough: bool) {
     more_floats!(out, rng, f32, thorough);
     more_floats!(out, rng, f64, thorough);
+    corner_floats!(out, rng, f32);
+    corner_floats!(out, rng, f64);
 }
